@@ -124,13 +124,44 @@ fn case_find(seed: u64, idx: usize, suite: &str, cache: &TableCache, rcache: &Re
     }
     let modes = cfggen::to_modes(&spec);
     st.cases += 1;
+    // C01: the reported token type and the tie-break are those of the configuration the scanner
+    // was built from: a third of the scanners is built through the cache after a sibling
+    // configuration with the same pattern texts and other token types (or another order)
+    let mut r2 = Rng::derive(seed ^ 0x0c01_51b1, idx as u64);
+    let sibling = suite == "C01" && r2.chance(35);
     let built = catch_unwind(AssertUnwindSafe(|| {
+        if sibling {
+            let mut sib = spec.clone();
+            for m in sib.iter_mut() {
+                match r2.below(3) {
+                    0 => {
+                        for (i, p) in m.patterns.iter_mut().enumerate() {
+                            p.tid = i;
+                        }
+                    }
+                    1 => {
+                        let mut tids: Vec<usize> = m.patterns.iter().map(|p| p.tid).collect();
+                        tids.rotate_left(1);
+                        for (p, t) in m.patterns.iter_mut().zip(tids) {
+                            p.tid = t;
+                        }
+                    }
+                    _ => m.patterns.reverse(),
+                }
+            }
+            let _ = ScannerBuilder::new().add_scanner_modes(&cfggen::to_modes(&sib)).build();
+        }
         if via_add_patterns {
             ScannerBuilder::new().add_patterns(spec[0].patterns.iter().map(|p| p.pattern.clone())).build()
+        } else if sibling {
+            ScannerBuilder::new().add_scanner_modes(&modes).build()
         } else {
             ScannerBuilder::new().add_scanner_modes(&modes).build_uncached()
         }
     }));
+    if sibling {
+        st.count("built_through_cache_after_sibling", 1);
+    }
     let scanner = match built {
         Err(_) => {
             st.build_panic += 1;
@@ -153,6 +184,18 @@ fn case_find(seed: u64, idx: usize, suite: &str, cache: &TableCache, rcache: &Re
     let _ = writeln!(head, "# {}{}", if via_add_patterns { "add_patterns " } else { "" }, describe(&spec).replace('\n', "\\n"));
     proto::write_scanner(&mut head, &dump, &tables);
     head.push_str("wf\nexpect wf 1\n");
+    // the configured polarity of every lookahead (the first pattern of a token type counts)
+    for (m, mode) in spec.iter().enumerate() {
+        let mut seen: Vec<usize> = Vec::new();
+        for p in &mode.patterns {
+            if let Some((pos, _)) = &p.lookahead {
+                if !seen.contains(&p.tid) {
+                    let _ = writeln!(head, "lapol {} {} {}", m, p.tid, *pos as u8);
+                }
+            }
+            seen.push(p.tid);
+        }
+    }
     if suite == "C01" {
         // the pattern-level reference and the hypothesis LangEquiv (C02's verified check)
         if !write_patterns(&mut head, &spec, rcache) {
@@ -215,9 +258,45 @@ fn case_iter(seed: u64, idx: usize, suite: &str, cache: &TableCache, out: &mut S
     }
     let modes = cfggen::to_modes(&spec);
     st.cases += 1;
+    // C06: half of the scanners come from the cached `build`, after a sibling configuration (same
+    // names and patterns, other transitions) went through the cache first: the transitions that
+    // count are those of the configuration the scanner was built from
+    let mut r2 = Rng::derive(seed ^ 0x5151_c06c, idx as u64);
+    let cached = suite == "C06" && r2.chance(50);
     let built = catch_unwind(AssertUnwindSafe(|| {
-        ScannerBuilder::new().add_scanner_modes(&modes).build_uncached()
+        if cached {
+            let mut sib = spec.clone();
+            let n = sib.len();
+            for m in sib.iter_mut() {
+                match r2.below(3) {
+                    0 => m.transitions.clear(),
+                    1 => {
+                        for t in m.transitions.iter_mut() {
+                            t.1 = r2.below(n);
+                        }
+                    }
+                    _ => {
+                        let tids: Vec<usize> = m.patterns.iter().map(|p| p.tid).collect();
+                        let mut tr: Vec<(usize, usize)> = Vec::new();
+                        for t in tids {
+                            if r2.chance(50) && !tr.iter().any(|x| x.0 == t) {
+                                tr.push((t, r2.below(n)));
+                            }
+                        }
+                        tr.sort();
+                        m.transitions = tr;
+                    }
+                }
+            }
+            let _ = ScannerBuilder::new().add_scanner_modes(&cfggen::to_modes(&sib)).build();
+            ScannerBuilder::new().add_scanner_modes(&modes).build()
+        } else {
+            ScannerBuilder::new().add_scanner_modes(&modes).build_uncached()
+        }
     }));
+    if cached {
+        st.count("built_through_cache_after_sibling", 1);
+    }
     let scanner = match built {
         Err(_) => {
             st.build_panic += 1;
@@ -570,7 +649,26 @@ fn c03_case(idx: usize, spec: &[ModeSpec], cache: &TableCache, out: &mut String,
 fn case_c03(seed: u64, idx: usize, cache: &TableCache, out: &mut String, st: &mut Stats) {
     let mut r = Rng::derive(seed, idx as u64);
     let pc = ProgCfg { max_modes: 2, max_patterns: 5, lookahead: 25, nullable: true, transitions: false, big_tids: false };
-    let spec = cfggen::gen_program(&mut r, &pc);
+    let mut spec = cfggen::gen_program(&mut r, &pc);
+    // token types that agree in their low bits (8, 16, 32) on states that differ in nothing else
+    let mut r2 = Rng::derive(seed ^ 0x0c03_7777, idx as u64);
+    if r2.chance(25) {
+        let m = r2.below(spec.len());
+        let n = spec[m].patterns.len();
+        if n >= 2 {
+            let i = r2.below(n);
+            let j = (i + 1 + r2.below(n - 1)) % n;
+            let shift = *r2.pick(&[8usize, 16, 32, 32]);
+            spec[m].patterns[j].tid = spec[m].patterns[i].tid + (1usize << shift) * (1 + r2.below(2));
+            if r2.chance(70) {
+                const KW: [&str; 6] = ["ab", "cd", "if", "do", "a+b", "c+b"];
+                let a = r2.below(3) * 2;
+                spec[m].patterns[i].pattern = KW[a].to_string();
+                spec[m].patterns[j].pattern = KW[a + 1].to_string();
+            }
+            st.count("token_types_congruent_mod_2^k", 1);
+        }
+    }
     c03_case(idx, &spec, cache, out, st);
 }
 
@@ -636,7 +734,100 @@ fn class_case(idx: usize, text: &str, rcache: &RefCache, out: &mut String, st: &
     }
 }
 
+/// C08: several classes in one scanner (one mode each, shared class registry): every class denotes
+/// the set it denotes when used alone, whatever else is registered (a class and its complement,
+/// a literal and its escaped spellings, the dot and the literal dot).
+fn shared_class_case(seed: u64, idx: usize, rcache: &RefCache, out: &mut String, st: &mut Stats) {
+    const POOL: [(&str, &str); 19] = [
+        ("\\pL", "\\PL"), ("\\p{Alphabetic}", "\\P{Alphabetic}"), ("\\p{Cased}", "\\P{Cased}"),
+        ("\\p{XID_Start}", "\\P{XID_Start}"), ("\\p{XID_Continue}", "\\P{XID_Continue}"), ("\\pN", "\\PN"),
+        ("\\p{Uppercase}", "\\P{Uppercase}"), ("\\p{White_Space}", "\\P{White_Space}"),
+        ("\\d", "\\D"), ("\\w", "\\W"), ("\\s", "\\S"), (".", "\\."), (".", "\\x2E"), ("a", "\\x61"), ("a", "\\u{61}"),
+        ("[a]", "[^a]"), ("[[:alpha:]]", "[[:^alpha:]]"), ("[\\pL]", "[\\PL]"), ("[\\d]", "\\d"),
+    ];
+    let mut r = Rng::derive(seed ^ 0x0c08_5a5a, idx as u64);
+    st.cases += 1;
+    let mut texts: Vec<String> = Vec::new();
+    for _ in 0..r.range(1, 3) {
+        let (a, b) = *r.pick(&POOL);
+        if r.chance(50) {
+            texts.push(a.to_string());
+            texts.push(b.to_string());
+        } else {
+            texts.push(b.to_string());
+            if r.chance(80) {
+                texts.push(a.to_string());
+            }
+        }
+    }
+    if r.chance(50) {
+        let d = r.range(0, 2);
+        texts.push(classgen::gen_bracket(&mut r, d, false));
+    }
+    if r.chance(40) {
+        r.shuffle(&mut texts);
+    }
+    let modes: Vec<scnr::ScannerMode> = texts
+        .iter()
+        .enumerate()
+        .map(|(i, t)| scnr::ScannerMode::new(&format!("M{}", i), vec![scnr::Pattern::new(t.clone(), 0)], vec![]))
+        .collect();
+    let built = catch_unwind(AssertUnwindSafe(|| ScannerBuilder::new().add_scanner_modes(&modes).build_uncached()));
+    let desc = texts.iter().map(|t| t.escape_default().to_string()).collect::<Vec<_>>().join("  ");
+    let scanner = match built {
+        Err(_) => {
+            st.build_panic += 1;
+            let _ = writeln!(out, "case {}\nexpect buildpanic\n# classes {}", idx, desc);
+            return;
+        }
+        Ok(Err(_)) => {
+            st.build_err += 1;
+            return;
+        }
+        Ok(Ok(s)) => s,
+    };
+    let d = scanner.verif_dump();
+    let _ = writeln!(out, "case {}\nexpect case {}\n# classes in one scanner: {}", idx, idx, desc);
+    out.push_str("scanner\n");
+    let mut tables: std::collections::HashMap<usize, Vec<(u32, u32)>> = std::collections::HashMap::new();
+    for (i, t) in texts.iter().enumerate() {
+        let Some(alone) = rcache.class_leaf(t) else {
+            st.count("reference_unavailable", 1);
+            continue;
+        };
+        let start = &d.modes[i].dfa.states[0];
+        if start.len() != 1 {
+            let _ = writeln!(out, "oracle FAIL the automaton of the single class {} has {} transitions from its start state\nexpect oracle", t.escape_default(), start.len());
+            continue;
+        }
+        let cc = start[0].0;
+        let real = tables.entry(cc).or_insert_with(|| proto::class_table(&scanner, cc));
+        if *real == *alone {
+            out.push_str("oracle ok\nexpect oracle\n");
+        } else {
+            let diff = first_table_diff(real, &alone);
+            let _ = writeln!(out, "oracle FAIL class {} denotes another set in a scanner that also contains the other classes than when used alone (first difference at code point {})\nexpect oracle", t.escape_default(), diff);
+        }
+        st.count("shared_registry_classes_checked", 1);
+        st.count("scalars_enumerated", 1_112_064);
+    }
+}
+
+fn first_table_diff(a: &[(u32, u32)], b: &[(u32, u32)]) -> u32 {
+    let mem = |t: &[(u32, u32)], c: u32| t.iter().any(|(lo, hi)| *lo <= c && c <= *hi);
+    let mut pts: Vec<u32> = Vec::new();
+    for (lo, hi) in a.iter().chain(b.iter()) {
+        pts.push(*lo);
+        pts.push(hi.saturating_add(1));
+    }
+    pts.sort();
+    pts.into_iter().find(|c| mem(a, *c) != mem(b, *c)).unwrap_or(0)
+}
+
 fn case_c08(seed: u64, idx: usize, rcache: &RefCache, out: &mut String, st: &mut Stats) {
+    if idx % 10 == 7 {
+        return shared_class_case(seed, idx, rcache, out, st);
+    }
     let mut r = Rng::derive(seed, idx as u64);
     // a separately labelled stream (5 %) contains verbatim `.` literals (finding F3)
     let dot = idx % 20 == 19;
@@ -753,7 +944,14 @@ fn case_c12(seed: u64, idx: usize, cache: &TableCache, out: &mut String, st: &mu
     let mut r = Rng::derive(seed, idx as u64);
     let pc = ProgCfg { max_modes: 3, max_patterns: 4, lookahead: 15, nullable: true, transitions: true, big_tids: false };
     let a = cfggen::gen_program(&mut r, &pc);
-    let b = cfggen::gen_program(&mut r, &pc);
+    let mut b = cfggen::gen_program(&mut r, &pc);
+    // the other configuration is often a near-identical sibling of A (one field differs; sometimes
+    // with a colliding 64-bit hash), built through the same cache
+    let mut r2 = Rng::derive(seed ^ 0x0c12_b1b1, idx as u64);
+    if r2.chance(40) {
+        b = mutate_cfg(&mut r2, &a);
+        st.count("other_configuration_is_a_sibling", 1);
+    }
     let cfgs = vec![a.clone(), b.clone()];
     st.cases += 1;
     let mut comps = CompIds::default();
@@ -835,7 +1033,13 @@ fn case_c12(seed: u64, idx: usize, cache: &TableCache, out: &mut String, st: &mu
             if !affects_iter(k, op) {
                 continue;
             }
-            let (line, res) = w2.exec(op, &mut comps);
+            // (the scanners of the projected history are compiled from their own configuration
+            // alone, without the cache)
+            let op2 = match op {
+                WOp::Build { s, cfg } => WOp::BuildU { s: *s, cfg: *cfg },
+                o => o.clone(),
+            };
+            let (line, res) = w2.exec(&op2, &mut comps);
             if is_iter_call(k, op) && res != results[i] && bad.is_none() {
                 bad = Some(format!("iterator {} op #{} `{}`: interleaved {:?} vs projected history {:?}", k, i, line, results[i], res));
             }
@@ -879,6 +1083,20 @@ fn mutate_cfg(r: &mut Rng, base: &[ModeSpec]) -> Vec<ModeSpec> {
     // near-identical configuration whose 64-bit FxHash (polynomial: h = (h + w) * K) collides with
     // the original: two consecutive hashed words (w1, w2) -> (w1 - 1, w2 + K)
     if r.chance(25) {
+        // (token type, target) of the last transition: (t, to) -> (t + 1/K, to - 1)
+        if r.chance(50) {
+            for mode in c.iter_mut() {
+                let n = mode.transitions.len();
+                if n >= 1 && mode.transitions[n - 1].1 >= 1 {
+                    const KINV: u64 = 0x781494a55daaed0d;
+                    let t = (mode.transitions[n - 1].0 as u64).wrapping_add(KINV) as usize;
+                    if mode.transitions.iter().all(|x| x.0 < t) {
+                        mode.transitions[n - 1] = (t, mode.transitions[n - 1].1 - 1);
+                        return c;
+                    }
+                }
+            }
+        }
         for mode in c.iter_mut() {
             if mode.transitions.len() >= 2 && mode.transitions[0].1 >= 1 {
                 const K: u64 = 0xf1357aea2e62a9c5;
@@ -1018,15 +1236,38 @@ fn case_c13(seed: u64, idx: usize, cache: &TableCache, out: &mut String, st: &mu
         }
         None => vec!["ab".to_string()],
     };
+    // an input on which every tiny configuration yields its own token
+    let mut inputs = inputs;
+    if n_tiny > 0 {
+        inputs.push((0..n_tiny).map(|i| format!("t{} ", i)).collect::<String>());
+    }
     // the build sequence
     let mut seq: Vec<usize> = Vec::new();
     for _ in 0..r.range(10, 30) {
         seq.push(r.below(first_tiny));
     }
     if n_tiny > 0 {
-        seq.extend(first_tiny..cfgs.len());
+        // (earlier configurations are requested again while the cache grows: the first one ever
+        // built, the first tiny one, and those 255..257 and 511..513 builds back)
+        let first = seq[0];
+        for i in first_tiny..cfgs.len() {
+            seq.push(i);
+            if (i - first_tiny) % 37 == 36 {
+                seq.push(first);
+                seq.push(first_tiny);
+                for back in [1usize, 255, 256, 257, 511, 512, 513] {
+                    if i >= first_tiny + back {
+                        seq.push(i - back);
+                    }
+                }
+            }
+        }
         // failing builds after the cache has grown, twice each, then earlier ones again
         seq.extend([first_tiny - 2, first_tiny - 2, first_tiny - 1, first_tiny - 1, 0, 2, first_tiny, first_tiny + 5]);
+        // every configuration of this case once more, starting with the very first one built
+        // (this case runs before all others: it is the first configuration the process built)
+        seq.push(seq[0]);
+        seq.extend(0..cfgs.len());
     }
     for (step, ci) in seq.iter().enumerate() {
         let modes = &real_modes[*ci];
@@ -1275,8 +1516,25 @@ fn case_c15(seed: u64, idx: usize, out: &mut String, st: &mut Stats) {
         }
     }
     st.cases += 1;
+    // a fifth of the cases: a configuration with an attached lookahead goes through the cached
+    // `build` first, then the case is its twin spelled with look-around syntax in the pattern text
+    let mut r2 = Rng::derive(seed ^ 0x0c15_e0e0, idx as u64);
+    if r2.chance(20) {
+        let m = r2.below(spec.len());
+        let p = r2.below(spec[m].patterns.len());
+        if spec[m].patterns[p].lookahead.is_none() {
+            spec[m].patterns[p].lookahead = Some((r2.chance(50), r2.pick(&["b", "[a-c]+", "a|b", "\\d"]).to_string()));
+        }
+        let valid = cfggen::to_modes(&spec);
+        let _ = catch_unwind(AssertUnwindSafe(|| ScannerBuilder::new().add_scanner_modes(&valid).build()));
+        let (pos, la) = spec[m].patterns[p].lookahead.take().unwrap();
+        let text = format!("{}(?{}{})", spec[m].patterns[p].pattern, if pos { "=" } else { "!" }, la);
+        spec[m].patterns[p].pattern = text;
+        st.count("look_around_twin_of_a_cached_configuration", 1);
+    }
     let modes = cfggen::to_modes(&spec);
     let built = catch_unwind(AssertUnwindSafe(|| ScannerBuilder::new().add_scanner_modes(&modes).build_uncached()));
+    let built_cached = catch_unwind(AssertUnwindSafe(|| ScannerBuilder::new().add_scanner_modes(&modes).build()));
     let _ = writeln!(out, "case {}\nexpect case {}\n# {}", idx, idx, describe(&spec).replace('\n', "\\n"));
     out.push_str("bnew\n");
     for m in &spec {
@@ -1288,8 +1546,7 @@ fn case_c15(seed: u64, idx: usize, out: &mut String, st: &mut Stats) {
             }
         }
     }
-    out.push_str("bbuild\n");
-    let res = match built {
+    let kind_of = |b: std::thread::Result<scnr::Result<scnr::Scanner>>| match b {
         Err(_) => "panic".to_string(),
         Ok(Ok(_)) => "build ok".to_string(),
         Ok(Err(e)) => match *e.source {
@@ -1298,6 +1555,11 @@ fn case_c15(seed: u64, idx: usize, out: &mut String, st: &mut Stats) {
             _ => "build othererror".to_string(),
         },
     };
+    // the same configuration through the cached `build`
+    out.push_str("bbuild\n");
+    let _ = writeln!(out, "expect {}", kind_of(built_cached));
+    out.push_str("bbuild\n");
+    let res = kind_of(built);
     st.count(&res.replace(' ', "_"), 1);
     st.count(match kind { 0..=4 => "planted_unsupported", 5..=7 => "meta_string", _ => "plain" }, 1);
     let _ = writeln!(out, "expect {}", res);
@@ -1428,6 +1690,37 @@ fn case_c16(seed: u64, idx: usize, cache: &TableCache, out: &mut String, st: &mu
             st.count("matchext_checked", 1);
         }
     }
+    // arbitrary MatchExt values (not only those the scanner produces: any columns, any lines),
+    // obtained by editing the numbers of a serialized value
+    {
+        let mut r2 = Rng::derive(seed ^ 0x0c16_a0a0, idx as u64);
+        for _ in 0..3 {
+            // the layout of the derived implementation: every field written out
+            let start = r2.below(60);
+            let l1 = 1 + r2.below(60);
+            // half of them on one line (end line = start line)
+            let l2 = if r2.chance(50) { l1 } else { l1 + r2.below(5) };
+            let v = serde_json::json!({
+                "token_type": r2.below(60),
+                "span": { "start": start, "end": start + r2.below(30) },
+                "start_position": { "line": l1, "column": 1 + r2.below(60) },
+                "end_position": { "line": l2, "column": 1 + r2.below(60) },
+            });
+            let Ok(me) = serde_json::from_value::<scnr::MatchExt>(v.clone()) else { continue };
+            let mut te = String::new();
+            jsonser::ser_value(&serde_json::to_value(me).unwrap(), &mut te);
+            let _ = writeln!(out, "jmatchext {} {} {} {} {} {} {}\nexpect json{}", me.token_type(), me.start(), me.end(),
+                me.start_position().line, me.start_position().column, me.end_position().line, me.end_position().column, te);
+            let back = serde_json::from_str::<scnr::MatchExt>(&serde_json::to_string(&me).unwrap());
+            let ok = matches!(&back, Ok(b) if *b == me);
+            let _ = writeln!(out, "{}\nexpect oracle", if ok {
+                "oracle ok".to_string()
+            } else {
+                format!("oracle FAIL MatchExt {:?} does not round-trip: read back as {:?}", me, back).replace('\n', " ")
+            });
+            st.count("arbitrary_matchext_checked", 1);
+        }
+    }
     if st.samples.len() < 2 {
         st.samples.push(text);
     }
@@ -1471,6 +1764,20 @@ fn case_c18(seed: u64, idx: usize, cache: &TableCache, out: &mut String, st: &mu
     let dir = std::env::temp_dir().join(format!("scnr_verif_c18_{}_{}_{}", std::process::id(), seed, idx));
     let _ = std::fs::remove_dir_all(&dir);
     std::fs::create_dir_all(&dir).unwrap();
+    // half of the time the files exist already, with other (longer) content: the files describe the
+    // scanner they were generated from, nothing of an earlier content may remain
+    let mut r2 = Rng::derive(seed ^ 0x18c1_8c18, idx as u64);
+    if r2.chance(50) {
+        for m in spec.iter() {
+            let mut junk = String::from("digraph old {\n");
+            for i in 0..(2000 + r2.below(3000)) {
+                let _ = writeln!(junk, "  old{} -> old{} [label=\"9{}\"];", i, i + 1, i);
+            }
+            junk.push_str("}\n");
+            let _ = std::fs::write(dir.join(format!("pre_{}.dot", m.name)), junk);
+        }
+        st.count("files_existed_before", 1);
+    }
     let res = catch_unwind(AssertUnwindSafe(|| scanner.generate_compiled_automata_as_dot("pre", &dir)));
     match res {
         Err(_) => out.push_str("oracle FAIL generate_compiled_automata_as_dot panicked on a writable folder\nexpect oracle\n"),
@@ -1759,6 +2066,14 @@ fn main() {
         std::fs::write(format!("{}/stats.json", args.out), serde_json::to_string_pretty(&j).unwrap()).unwrap();
         return;
     }
+    let c13_first = args.suite == "C13" && args.only.as_ref().map(|o| o.contains(&0)).unwrap_or(n > 0);
+    if c13_first {
+        // the cache-growth case runs alone, before any other build of the process
+        let mut o = String::new();
+        let mut stt = Stats::default();
+        case_c13(args.seed, 0, &cache, &mut o, &mut stt);
+        chunks.push((o, stt));
+    }
     if args.suite == "C14" {
         let mut o = String::new();
         let mut stt = Stats::default();
@@ -1795,6 +2110,10 @@ fn main() {
                 let mut st = Stats::default();
                 let mut idx = t;
                 while idx < n {
+                    if suite == "C13" && idx == 0 {
+                        idx += threads;
+                        continue;
+                    }
                     if let Some(o) = &only {
                         if !o.contains(&idx) {
                             idx += threads;
